@@ -58,6 +58,13 @@ def key_of(val, type_id, ints_addr):
     if type_id == 4:
         a = int(val)
         return -1 if a == 0 else (a - ints_addr) // 4
+    if type_id == 5:
+        # nested gch::small_vector<int, 2>: read it through the (already validated) container printer
+        inner = gdb.default_visualizer(val)
+        if inner is None:
+            raise RuntimeError("no printer for the nested small_vector element")
+        kids = list(inner.children())
+        return len(kids) * 100000 + (int(kids[0][1]) if kids else 0)
     raise RuntimeError("unknown type id")
 
 
@@ -81,9 +88,9 @@ def check_stop():
     gdb.execute("up", to_string=True)
     v = gdb.parse_and_eval("v")
     label = "case %d (type %d, N=%d, size=%d, capacity=%d, %s)" % (case, type_id, n, size, cap, "heap" if heap else "inline")
-    cls = ("heap" if heap else ("n0_empty" if n == 0 and size == 0 else "inline")) + ("_class" if type_id in (2, 3) else "")
+    cls = ("heap" if heap else ("n0_empty" if n == 0 and size == 0 else "inline")) + ("_class" if type_id in (2, 3, 5) else "")
     res["classes"][cls] = res["classes"].get(cls, 0) + 1
-    if heap or (n == 0 and size == 0) or type_id in (2, 3):
+    if heap or (n == 0 and size == 0) or type_id in (2, 3, 5):
         res["nontrivial"].append("%d/%d/%d/%d/%d/%d" % (type_id, n, size, cap, heap, hash(tuple(keys)) & 0xffffff))
     # 1. the printer as the user sees it
     text = gdb.execute("print v", to_string=True)
